@@ -165,6 +165,12 @@ theorem foldE_rel {β : Type} (R : State → State → Prop) (hrefl : ∀ s, R s
     · next st' heq => exact htrans _ _ _ (hf s b st' heq) (ih st' s' h)
     · simp at h
 
+theorem kvSetTxn_ok {s : State} {idx : Nat} {e : KV} {upd : Bool} (h : e.key ≠ []) :
+    ∃ s' w, kvSetTxn s idx e upd = .ok (s', w) := by
+  simp only [kvSetTxn, h, if_false]
+  repeat' split
+  all_goals exact ⟨_, _, rfl⟩
+
 /-! ### the lock view -/
 
 /-- the tables the lock invariant is about -/
